@@ -52,18 +52,27 @@ PRIMARY = {"Network/undirected", "GeoNetwork", "ClimateNetwork", "TsonisClimateN
            "InteractingNetworks/undirected", "Network/directed"}
 
 
+#: cheap specs (tens of fast queries): enumerated one level deeper than the tier default
+LIGHT = {"RecurrencePlot", "RecurrencePlot/euclidean-embedded", "RecurrencePlot/missing-values",
+         "CrossRecurrencePlot", "JointRecurrencePlot", "JointRecurrencePlot/lag", "ClimateData", "Data",
+         "Surrogates", "Grid", "GeoGrid", "EventSeries"}
+#: in the thorough tier these are enumerated exhaustively to length 4 as well (alphabet <= 6)
+DEEP = {"Network/undirected", "Network/directed", "JointRecurrenceNetwork", "ResNetwork",
+        "InterSystemRecurrenceNetwork"}
+
+
 def plan(spec, tier, seed):
     """-> list of histories (tuples of mutator names)"""
     names = [m.name for m in spec.mutators]
     primary = spec.name in PRIMARY
-    if tier == "quick":
-        full, samples = 2, {3: 14 if primary else 8}
-        if not primary:
-            full, samples = 1, {2: 24, 3: 8}
+    if spec.name in LIGHT:
+        full, samples = (3, {}) if tier == "quick" else (4, {5: 40})
+    elif tier == "quick":
+        full, samples = (2, {3: 30}) if primary else (1, {2: 40, 3: 12})
+    elif spec.name in DEEP and len(names) <= 6:
+        full, samples = 4, {}
     else:
-        full, samples = 3, {4: 60}
-        if not primary:
-            full, samples = 2, {3: 150, 4: 40}
+        full, samples = (3, {4: 200}) if primary else (2, {3: 200, 4: 60})
     hist = [()]
     for L in range(1, full + 1):
         hist += list(itertools.product(names, repeat=L))
